@@ -409,7 +409,7 @@ func run(r *harness.Run) {
 	}
 	var jobs []job
 	for _, v := range vers {
-		jobs = append(jobs, job{v, authcells.GenMember}, job{v, authcells.GenThirdParty}, job{v, authcells.GenOther}, job{v, authcells.GenPowerLevels}, job{v, authcells.GenCreate})
+		jobs = append(jobs, job{v, authcells.GenMember}, job{v, authcells.GenThirdParty}, job{v, authcells.GenOther}, job{v, authcells.GenPowerLevels}, job{v, authcells.GenCreate}, job{v, authcells.GenCaseVariants})
 	}
 	r.Parallel(len(jobs), func(i int) {
 		cells := jobs[i].gen(jobs[i].v)
